@@ -41,7 +41,7 @@ macro "nat_bits" : tactic => `(tactic|
     | rfl
     | (simp only [nnFfs, nnFfcs, nnFfe, nnForward, nnRetry, cmdNnp, cmdFfd, fr, Nat.lor_comm, Nat.lor_left_comm,
          Nat.lor_assoc]; done)
-    | (simp only [nnFfs, nnFfcs, nnFfe, nnForward, nnRetry, cmdNnp, cmdFfd, fr]
+    | ((try simp only [nnFfs, nnFfcs, nnFfe, nnForward, nnRetry, cmdNnp, cmdFfd, fr])
        apply Nat.eq_of_testBit_eq; intro i; simp only [Nat.testBit_or, Nat.testBit_shiftLeft]; grind))
 
 /-- cast-free form of a generated packet expression, then comparison of the naturals -/
